@@ -12,7 +12,9 @@
    the done funcs handed out (wg.Done)        holders : list holder -- which WaitGroup object it decrements; called?
 
    The instance function is an environment script: it runs until it observes its stop channel closed (IRun -> ISaw), then
-   returns after an arbitrary delay (ISaw -> IRet).  done() calls are environment steps, enabled once, any time after
+   returns after an arbitrary delay (ISaw -> IRet); it may also return on its own while stop is still open (label LIE,
+   IRun -> IRet, ghost flag `early`), which the library permits: the stop channel must then still be closed, but only
+   after the last done, because helpers of the function may be watching it.  done() calls are environment steps, enabled once, any time after
    the Do returned.  Go panics (close of nil/closed channel, negative WaitGroup counter) set `panicked`, which disables
    every further step.
 
@@ -41,7 +43,8 @@ Inductive ipc :=
 | IRet     (* fn returned; worker.go:74 close(x.done) not yet executed *)
 | IExit.
 
-Record inst := { wp : wpc; ip : ipc; isc : option nat; stopc : bool; donec : bool }.
+Record inst := { wp : wpc; ip : ipc; isc : option nat; stopc : bool; donec : bool;
+                 early : bool  (* ghost: the function returned WITHOUT having seen its stop channel closed *) }.
 Record holder := { hgen : nat; hdone : bool }.
 Record st := { mu : bool; xwg : option nat; xinst : option nat; gens : list nat; insts : list inst;
                holders : list holder; panicked : bool }.
@@ -52,7 +55,8 @@ Definition faithful : flags := {| f_early := false; f_norecheck := false; f_none
 Definition init : st :=
   {| mu := false; xwg := None; xinst := None; gens := []; insts := []; holders := []; panicked := false |}.
 
-Definition new_inst : inst := {| wp := WLoop; ip := IReady; isc := None; stopc := false; donec := false |}.
+Definition new_inst : inst :=
+  {| wp := WLoop; ip := IReady; isc := None; stopc := false; donec := false; early := false |}.
 
 Fixpoint upd {A : Type} (l : list A) (n : nat) (x : A) : list A :=
   match l, n with
@@ -62,13 +66,15 @@ Fixpoint upd {A : Type} (l : list A) (n : nat) (x : A) : list A :=
   end.
 
 Definition set_wp (p : wpc) (i : inst) : inst :=
-  {| wp := p; ip := ip i; isc := isc i; stopc := stopc i; donec := donec i |}.
+  {| wp := p; ip := ip i; isc := isc i; stopc := stopc i; donec := donec i; early := early i |}.
 Definition set_ip (p : ipc) (c : option nat) (i : inst) : inst :=
-  {| wp := wp i; ip := p; isc := c; stopc := stopc i; donec := donec i |}.
+  {| wp := wp i; ip := p; isc := c; stopc := stopc i; donec := donec i; early := early i |}.
 Definition set_stopc (i : inst) : inst :=
-  {| wp := wp i; ip := ip i; isc := isc i; stopc := true; donec := donec i |}.
+  {| wp := wp i; ip := ip i; isc := isc i; stopc := true; donec := donec i; early := early i |}.
+Definition set_early (i : inst) : inst :=
+  {| wp := wp i; ip := IRet; isc := isc i; stopc := stopc i; donec := donec i; early := true |}.
 Definition set_donec (i : inst) : inst :=
-  {| wp := wp i; ip := ip i; isc := isc i; stopc := stopc i; donec := true |}.
+  {| wp := wp i; ip := ip i; isc := isc i; stopc := stopc i; donec := true; early := early i |}.
 
 Definition st_insts (s : st) (l : list inst) : st :=
   {| mu := mu s; xwg := xwg s; xinst := xinst s; gens := gens s; insts := l; holders := holders s;
@@ -90,7 +96,9 @@ Inductive label :=
 | LDo             (* some caller executes Do's critical section (worker.go:43-54) and returns *)
 | LDone (h : nat) (* holder h calls its done function *)
 | LW (k : nat)    (* the next step of the k-th watcher goroutine *)
-| LI (k : nat).   (* the next step of the k-th do goroutine / instance function *)
+| LI (k : nat)    (* the next step of the k-th do goroutine / instance function *)
+| LIE (k : nat).  (* the k-th instance function returns ON ITS OWN, without having seen stop closed (e.g. after handing
+                     the stop channel to helpers); allowed by the library, outside the "runs until stopped" script *)
 
 (* worker.go:39-55 *)
 Definition do_step (fl : flags) (s : st) : option st :=
@@ -203,6 +211,12 @@ Definition i_step (s : st) (k : nat) : option st :=
       end
   end.
 
+Definition i_early_step (s : st) (k : nat) : option st :=
+  match nth_error (insts s) k with
+  | None => None
+  | Some i => match ip i with IRun => Some (modi s k set_early) | _ => None end
+  end.
+
 Definition step (fl : flags) (s : st) (l : label) : option st :=
   if panicked s then None
   else match l with
@@ -210,6 +224,7 @@ Definition step (fl : flags) (s : st) (l : label) : option st :=
        | LDone h => done_step s h
        | LW k => w_step fl s k
        | LI k => i_step s k
+       | LIE k => i_early_step s k
        end.
 
 (* a disabled pick is a stutter *)
@@ -234,7 +249,7 @@ Definition measure (s : st) : nat :=
 Definition running (i : inst) : bool := match ip i with IRun | ISaw => true | _ => false end.
 Definition alive (i : inst) : bool := match ip i with IExit => false | _ => true end.
 Definition started (i : inst) : bool := match ip i with IReady => false | _ => true end.
-Definition sawstop (i : inst) : bool := match ip i with ISaw | IRet | IExit => true | _ => false end.
+Definition sawstop (i : inst) : bool := match ip i with ISaw | IRet | IExit => negb (early i) | _ => false end.
 Definition returned (i : inst) : bool := match ip i with IRet | IExit => true | _ => false end.
 Definition walive (i : inst) : bool := match wp i with WExit => false | _ => true end.
 Definition countb {A : Type} (p : A -> bool) (l : list A) : nat := length (filter p l).
@@ -242,7 +257,7 @@ Definition countb {A : Type} (p : A -> bool) (l : list A) : nat := length (filte
 (* ---- the harness-level (K1) view: one harness action, then the library runs until nothing but the harness can move ----
    Internal moves: every watcher step, the do goroutine starting, the function noticing stop, close(done), and blocked
    Do calls getting through.  NOT internal: the function returning (the harness gates it) and done() calls. *)
-Inductive kop := KDo | KDone (h : nat) | KRelease (k : nat).
+Inductive kop := KDo | KDone (h : nat) | KRelease (k : nat) | KEarly (k : nat).
 Record kst := { ws : st; pend : nat }.
 Definition kinit : kst := {| ws := init; pend := 0 |}.
 
@@ -283,12 +298,13 @@ Fixpoint settle (fuel : nat) (s : st) (p : nat) : kst :=
   end.
 
 (* what the harness can see at a quiescent point:
-   [Do calls returned; instances started; that saw stop; whose function returned; library goroutines alive
-    (watchers + do goroutines + callers blocked in Do); Do calls still blocked; panicked] *)
+   [Do calls returned; instances started; that saw stop themselves; whose function returned; library goroutines alive
+    (watchers + do goroutines + callers blocked in Do); Do calls still blocked; stop channels closed; panicked] *)
 Definition kobs (k : kst) : list nat :=
   let s := ws k in
   [ length (holders s); countb started (insts s); countb sawstop (insts s); countb returned (insts s);
-    countb walive (insts s) + countb alive (insts s) + pend k; pend k; if panicked s then 1 else 0 ].
+    countb walive (insts s) + countb alive (insts s) + pend k; pend k; countb stopc (insts s);
+    if panicked s then 1 else 0 ].
 
 Definition kfuel : nat := 400.
 
@@ -304,6 +320,11 @@ Definition kstep (k : kst) (o : kop) : kst * list nat :=
                      | ISaw => settle kfuel (step_or_stay faithful s (LI i)) (pend k)
                      | _ => k
                      end
+        | None => k
+        end
+    | KEarly i =>
+        match step faithful s (LIE i) with
+        | Some s' => settle kfuel s' (pend k)
         | None => k
         end
     end in
